@@ -399,7 +399,8 @@ fn run_op(line: &str) -> String {
         // formatted APIs: op ty fmt args...
         "pi" => by_int!(t[1], dispatch_pi, parse_fmt(t[2]), facade, &t[3..]).unwrap_or_else(nofmt),
         "wi" => by_int!(t[1], dispatch_wi, parse_fmt(t[2]), facade, &t[3..]).unwrap_or_else(nofmt),
-        "pf" => by_float!(t[1], dispatch_pf, parse_fmt(t[2]), facade, &t[3..]).unwrap_or_else(nofmt),
+        // `apf`: the same API call; the model column is the *algorithmic* pipeline model (Model.ParseFloatAlgo)
+        "pf" | "apf" => by_float!(t[1], dispatch_pf, parse_fmt(t[2]), facade, &t[3..]).unwrap_or_else(nofmt),
         "wf" => by_float!(t[1], dispatch_wf, parse_fmt(t[2]), facade, &t[3..]).unwrap_or_else(nofmt),
         "bs" => by_float!(t[1], dispatch_bs, parse_fmt(t[2]), facade, &t[3..]).unwrap_or_else(nofmt),
         // default APIs: op ty args...
